@@ -594,11 +594,11 @@ func genBuilder(ctx TaggedStructContext, genMethod fp.Set[string]) fp.Set[string
 	if !isMethodDefined(workingPackage, builderTypeName, "Apply") {
 
 		tp := iterator.Map(seq.Iterator(allFields), func(v metafp.StructField) string {
-			return fmt.Sprintf("%s %s", v.Name, v.TypeName(w, workingPackage))
+			return fmt.Sprintf("%sValue %s", v.Name, v.TypeName(w, workingPackage))
 		}).MakeString(",")
 
 		fields := iterator.Map(iterator.Zip(iterator.Range(0, allFields.Size()), seq.Iterator(allFields)), func(f fp.Tuple2[int, metafp.StructField]) string {
-			return fmt.Sprintf("r.%s = %s", f.I2.Name, f.I2.Name)
+			return fmt.Sprintf("r.%s = %sValue", f.I2.Name, f.I2.Name)
 		}).MakeString("\n")
 
 		fmt.Fprintf(w, `
